@@ -19,6 +19,40 @@ enum Method {
     // serialisation hits a non-string map key after `name`
     #[serde(rename = "org.example.Bad")]
     Bad { name: String, m: BTreeMap<bool, u32>, tail: String },
+    // serialisation is refused by the value itself (a custom serde error) after `name`
+    #[serde(rename = "org.example.Fail")]
+    Fail { name: String, bad: Failing, tail: String },
+}
+
+/// A value whose `Serialize` impl refuses (like a `SystemTime` before the epoch, a non-UTF-8 path,
+/// a borrowed `RefCell`): the serializer has to report that error, whatever room is left.
+#[derive(Debug)]
+struct Failing;
+impl Serialize for Failing {
+    fn serialize<S: serde::Serializer>(&self, _s: S) -> Result<S::Ok, S::Error> {
+        Err(serde::ser::Error::custom("refused by the value"))
+    }
+}
+
+/// Number of bytes of the encoding that precede the refusing value, computed WITHOUT the zlink
+/// serializer: serde_json's encoding of the same call with a marker string in its place.
+fn fail_prefix_len(name: &str, oneway: bool, more: bool) -> u64 {
+    #[derive(Serialize)]
+    #[serde(tag = "method", content = "parameters")]
+    enum Twin<'a> {
+        #[serde(rename = "org.example.Fail")]
+        Fail { name: &'a str, bad: &'a str, tail: &'a str },
+    }
+    let mut c = Call::new(Twin::Fail { name, bad: "\u{1}MARK", tail: "" });
+    if oneway {
+        c = c.set_oneway(true);
+    }
+    if more {
+        c = c.set_more(true);
+    }
+    let v = serde_json::to_vec(&c).unwrap();
+    let pat = b"\"\\u0001MARK\"";
+    v.windows(pat.len()).position(|w| w == pat).expect("marker") as u64
 }
 
 #[derive(Debug, Serialize)]
@@ -81,6 +115,15 @@ fn mk_msg(spec: &Value) -> Msg {
             Msg::Call(c)
         }
         "ping" => Msg::Call(Call::new(Method::Ping)),
+        "failcall" => {
+            let mut c = Call::new(Method::Fail { name: text, bad: Failing, tail: "t".repeat((seed % 300) as usize) });
+            match seed % 4 {
+                1 => c = c.set_oneway(true),
+                2 => c = c.set_more(true),
+                _ => {}
+            }
+            Msg::Call(c)
+        }
         "badcall" => {
             let mut m = BTreeMap::new();
             m.insert(true, 1);
@@ -125,6 +168,13 @@ fn oracle(m: &Msg) -> Value {
             }
         }
         lo as u64
+    }
+    if let Msg::Call(c) = m {
+        if let Method::Fail { name, .. } = c.method() {
+            // independent of the serializer under test
+            return json!({"bad": fail_prefix_len(name, c.oneway(), c.more()), "indep": true,
+                          "impl_k": badk(c)});
+        }
     }
     let g = match m {
         Msg::Call(c) => good(c).ok_or_else(|| badk(c)),
